@@ -38,6 +38,11 @@ def build(spec):
     elif scheme == 'shuffled':
         ids = ['a%d' % (i + 1) for i in range(n)]
         rnd.shuffle(ids)
+    elif scheme == 'digits':
+        # ids that are bare numbers: zero-based, non-sequential or shuffled (they are names, not positions)
+        ids = [[str(i) for i in range(n)], [str(10 * i + 5) for i in range(n)], [str(i + 1) for i in range(n)]][spec.get('seed', 0) % 3]
+        if spec.get('seed', 0) % 3 == 2 or n > 2:
+            rnd.shuffle(ids)
     elif scheme == 'case':
         base = ['CA', 'Ca', 'N', 'n', 'HA', 'Ha', 'OW', 'ow']
         ids = base[:n] if n <= len(base) else base + ['z%d' % i for i in range(n - len(base))]
@@ -122,14 +127,14 @@ def run(rec, tier, seed):
     if msg:
         rec.fail('cml', 'load-rewritten-path', msg, {'rewrite': True}, 'C16/load/path')
     rec.rule = ("generated Avogadro-flavour CML documents: 1-6 atoms, 0-6 bonds, id schemes {sequential, non-sequential, shuffled, arbitrary "
-                "strings}, signed coordinates of varied magnitude; loaded from StringIO, from a path via Atoms.load and from an open file; "
+                "strings, case-distinguished, bare numbers}, signed coordinates of varied magnitude; loaded from StringIO, from a path via Atoms.load and from an open file; "
                 "compared with the document. distinct = specs; non-trivial = all")
     seeds = range(2) if tier == 'quick' else range(8)
     for n in range(1, 7):
         for nb in sorted({0, 1, min(n * (n - 1), 3), min(n * (n - 1), 6)}):
             if n == 1 and nb > 0:
                 continue
-            for scheme in ('seq', 'nonseq', 'shuffled', 'arbitrary', 'case'):
+            for scheme in ('seq', 'nonseq', 'shuffled', 'arbitrary', 'case', 'digits'):
                 for s in seeds:
                     spec = gen_spec(n, nb, scheme, seed * 100 + s)
                     msg = check(spec)
